@@ -3,8 +3,8 @@ from verif import Case
 from gen_util import *
 import pyref
 
-MODULES = ["WowSrp.Props.C17", "WowSrp.Props.Source.C17", "WowSrp.Props.Source.Structural.C17", "WowSrp.Props.Source.Shape.C17"]
-THEOREMS = ["C17_all_equal", "C17_generic", "C17_split_indep", "C17_one_buffer", "C17_reconnect", "C17_changed_input_collision", "C17_changed_input_collision_files", "C17_flipped_bit_is_change", "C17_reconnect_changed_salt_collision", "C17_source_layout", "C17_source_no_hidden_state", "C17_source_structural_impls", "C17_changed_files_collision", "C17_changed_input_collision_anysalt", "C17_changed_input_collision_files_anysalt", "C17_source_shapes"]
+MODULES = ["WowSrp.Props.C17", "WowSrp.Props.Source.C17", "WowSrp.Props.Source.Structural.C17", "WowSrp.Props.Source.Shape.C17", "WowSrp.Props.Source.HashesIntegrity"]
+THEOREMS = ["C17_all_equal", "C17_generic", "C17_split_indep", "C17_one_buffer", "C17_reconnect", "C17_changed_input_collision", "C17_changed_input_collision_files", "C17_flipped_bit_is_change", "C17_reconnect_changed_salt_collision", "C17_source_layout", "C17_source_no_hidden_state", "C17_source_structural_impls", "C17_changed_files_collision", "C17_changed_input_collision_anysalt", "C17_changed_input_collision_files_anysalt", "C17_source_shapes", "C17_translated_finalise", "C17_translated_checksum", "C17_translated_generic", "C17_translated_windows", "C17_translated_mac", "C17_translated_reconnect"]
 RULE = ("byte strings of length 0..4096 (thorough: up to 1 MiB) distributed over the five file arguments in random and boundary ways (empty files, splits at "
         "0, 1, 63, 64, 65 — the SHA-1/HMAC block edges), Windows, Mac and single-buffer entry points + reconnect check, compared with an independent "
         "SHA1(pk | HMAC-SHA1(salt, files)); single-bit changes of a file byte, the salt and the key must change the digest. "
